@@ -33,7 +33,10 @@ def gate_expected(config, cred, fault):
 def run_c09(tier, seed):
     chk = Check("C09", tier, seed)
     broken = prep(chk, "C09")
-    rows, o = run_mode(chk, "tlsgate", [])
+    # number of failed handshakes in a row before a well-behaved client is tried: beyond every constant of the source that could be a limit
+    import thresholds as T
+    flood = max([300] + [v + 40 for v in T.new_constants() if v <= 4000])
+    rows, o = run_mode(chk, "tlsgate", [str(flood)])
     validated, distinct = 0, set()
     dist = {}
     for r in rows:
